@@ -1077,7 +1077,8 @@ fn system_rows(st: &State, node: usize, table_idx: usize, wants_version: bool) -
         }
         "system_schema.scylla_tables" => {
             let specs = Specs::new(ks, tb, &[("keyspace_name", t_text()), ("table_name", t_text()), ("partitioner", t_text())]);
-            let rows = st.topo.keyspaces.iter().flat_map(|k| k.tables.iter().map(move |t| vec![c_text(&k.name), c_text(&t.name), None])).collect();
+            // `partitioner`: null unless registered in TABLE_PARTITIONERS (C03's `e2e partitioner` family)
+            let rows = st.topo.keyspaces.iter().flat_map(|k| k.tables.iter().map(move |t| vec![c_text(&k.name), c_text(&t.name), table_partitioner(&k.name, &t.name).map(|p| p.into_bytes())])).collect();
             (specs, rows)
         }
         "system_schema.scylla_keyspaces" => {
@@ -1087,6 +1088,16 @@ fn system_rows(st: &State, node: usize, table_idx: usize, wants_version: bool) -
         }
         _ => return None,
     })
+}
+
+/// Partitioner names `system_schema.scylla_tables` reports, keyed by `"<keyspace>.<table>"` (absent = null). A
+/// process-wide registry so that `TableSpec` keeps its shape; only C03's `e2e partitioner` family registers names, for
+/// tables no other family uses.
+pub static TABLE_PARTITIONERS: Mutex<Vec<(String, String)>> = Mutex::new(Vec::new());
+
+fn table_partitioner(ks: &str, table: &str) -> Option<String> {
+    let key = format!("{ks}.{table}");
+    TABLE_PARTITIONERS.lock().unwrap().iter().find(|(k, _)| *k == key).map(|(_, v)| v.clone())
 }
 
 // ---------------------------------------------------------------------------------------------------------------
